@@ -1006,7 +1006,7 @@ func genResumeSeq(r *Rng, i int, tier string) string {
 	return fmt.Sprintf("seed=%d conns=%s", r.U64()>>1, strings.Join(ss, ","))
 }
 
-var hrrRandom = []byte{0xCF, 0x21, 0xAD, 0x74, 0xE5, 0x9A, 0x61, 0x11, 0xBE, 0x1D, 0x8C, 0x02, 0x1E, 0x65, 0xB8, 0x91,
+var c19HrrRandom = []byte{0xCF, 0x21, 0xAD, 0x74, 0xE5, 0x9A, 0x61, 0x11, 0xBE, 0x1D, 0x8C, 0x02, 0x1E, 0x65, 0xB8, 0x91,
 	0xC2, 0xA2, 0x11, 0x16, 0x7A, 0xBB, 0x8C, 0x5E, 0x07, 0x9E, 0x09, 0xE2, 0xC8, 0xA8, 0x33, 0x9C}
 
 // serverSentHRR: the server's first handshake message is a ServerHello with the HelloRetryRequest random.
@@ -1015,7 +1015,7 @@ func serverSentHRR(wire []byte) bool {
 	if len(rs) == 0 || rs[0].Type != 22 || len(rs[0].Payload) < 38 || rs[0].Payload[0] != 2 {
 		return false
 	}
-	return bytes.Equal(rs[0].Payload[6:38], hrrRandom)
+	return bytes.Equal(rs[0].Payload[6:38], c19HrrRandom)
 }
 
 func peekEntry(cache *logCache, key string, E int64) string {
